@@ -136,6 +136,28 @@ def cases(tier: str) -> List[Dict[str, Any]]:
                 if f1 == f2 and a.startswith("r") and b.startswith("r") and tier == "quick" and gname not in ("single", "diamond"):
                     continue
                 out.append(dict(cls="msgid", graph=gname, core=False, forms=[(a, f1), (b, f2)]))
+        # id sets that touch, overlap at one end, nest or only neighbour each other: conflict iff the sets intersect
+        if tier == "thorough" or gname in ("single", "fan2", "diamond", "subdir"):
+            firsts = [("message", 2500, 2500), ("rdash", 2498, 2500), ("rto", 2500, 2502), ("rint", 2500, 2500)]
+            seconds = [("message", 2499, 2499), ("message", 2501, 2501), ("signal", 2500, 2500), ("signal", 2503, 2503), ("rint", 2497, 2497), ("rint", 2498, 2498),
+                       ("rint", 2502, 2502), ("rint", 2503, 2503), ("rdash", 2495, 2497), ("rdash", 2496, 2498), ("rdash", 2499, 2501), ("rto", 2501, 2503),
+                       ("rto", 2502, 2504), ("rto", 2503, 2505), ("rdash", 2490, 2510)]
+            fpairs = pairs if tier == "thorough" else [p for p in pairs if p[0] == "root.yaml" or p[0] == p[1] or p[1] == "root.yaml"]
+            for a in firsts:
+                for b in seconds:
+                    for (f1, f2) in fpairs:
+                        out.append(dict(cls="idsets", graph=gname, core=False, forms=[list(a) + [f1], list(b) + [f2]]))
+        # names that nearly collide (case, suffix, prefix) never conflict
+        if tier == "thorough" or gname in ("single", "diamond"):
+            for (k1, k2) in itertools.product(KINDS, repeat=2):
+                for n2 in ("DUP2", "Dup", "DUP_", "XDUP", "DU"):
+                    for (f1, f2) in (pairs if tier == "thorough" else pairs[:3]):
+                        out.append(dict(cls="nearname", graph=gname, core=False, items=[(k1, "DUP", 2001, f1), (k2, n2, 2002, f2)]))
+        # a conflict among many unrelated definitions (every file carries its own bulk)
+        if tier == "thorough":
+            for (k1, k2) in itertools.product(KINDS, repeat=2):
+                for (f1, f2) in pairs:
+                    out.append(dict(cls="name-in-bulk", graph=gname, core=False, items=[(k1, "DUP", 2001, f1), (k2, "DUP", 2002, f2)]))
         # module / host ids
         for (f1, f2) in pairs:
             out.append(dict(cls="modid", graph=gname, core=False, files=[f1, f2]))
@@ -195,6 +217,34 @@ def build(case) -> Tuple[Files, str, Optional[Dict[str, Any]]]:
             elif form == "rto":
                 fl.add_reserved(f, "2500 to 2501")
         return fl, exp, None
+    if cls == "idsets":
+        sets = []
+        for i, (form, lo, hi, f) in enumerate(case["forms"]):
+            if form in ("message", "signal"):
+                fl.add(f, "message_defs", item_lines(form, f"MSG{i}", lo))
+            elif form == "rint":
+                fl.add_reserved(f, str(lo))
+            elif form == "rdash":
+                fl.add_reserved(f, f"{lo} - {hi}")
+            else:
+                fl.add_reserved(f, f"{lo} to {hi}")
+            sets.append(set(range(lo, hi + 1)))
+        return fl, ("MessageIDError" if sets[0] & sets[1] else "ok"), None
+    if cls == "nearname":
+        (k1, n1, i1, f1), (k2, n2, i2, f2) = case["items"]
+        fl.add(f1, SECTION[k1], item_lines(k1, n1, i1))
+        fl.add(f2, SECTION[k2], item_lines(k2, n2, i2))
+        return fl, "ok", None
+    if cls == "name-in-bulk":
+        (k1, n1, i1, f1), (k2, n2, i2, f2) = case["items"]
+        for j, f in enumerate(reachable(g)):
+            for q, kind in enumerate(KINDS):
+                fl.add(f, SECTION[kind], item_lines(kind, f"BULK_{j}_{q}", 3000 + 10 * j + q))
+            fl.add_reserved(f, f"{3200 + 10 * j} - {3200 + 10 * j + 3}")
+        fl.add(f1, SECTION[k1], item_lines(k1, n1, i1))
+        fl.add(f2, SECTION[k2], item_lines(k2, n2, i2))
+        same_mapping = f1 == f2 and SECTION[k1] == SECTION[k2]
+        return fl, ("YAMLSyntaxError" if same_mapping else "DuplicateNameError"), None
     if cls == "modid":
         f1, f2 = case["files"]
         fl.add(f1, "module_ids", ["  MOD_A: 42"])
